@@ -66,6 +66,65 @@ Theorem C11_burn_respects_switches_and_limits : forall v s now a d x s', burn v 
 Proof. exact burn_respects_switches_and_limits. Qed.
 Print Assumptions C11_burn_respects_switches_and_limits.
 
+(* Books match the bank, as an invariant over ALL histories of mints, burns and swaps by holders
+   (arbitrary amounts, arbitrary order), emergency switches, slash / raise hooks, weight slashes
+   and end blocks, for either variant: the supply equals the recorded amount and the module
+   account holds at least the recorded reserves plus surplus of every denomination. *)
+Theorem C11_books_match_bank : forall v ops s, Forall op_ok ops -> Inv s -> Inv (run v s ops).
+Proof. exact books_match_bank. Qed.
+Print Assumptions C11_books_match_bank.
+
+(* edits: with the repair they touch neither amount, supply, surplus nor balances, and every
+   accepted edit leaves the supply covered by the new valuation of the reserves ... *)
+Theorem C11_edit_keeps_amount_repaired : forall v s new s', v_edit_keep v = true -> edit v s new = Ok s' ->
+  b_amount (s_bk s') = b_amount (s_bk s) /\ s_supply s' = s_supply s /\ b_surplus (s_bk s') = b_surplus (s_bk s)
+  /\ s_bal s' = s_bal s.
+Proof. exact edit_keeps_amount_repaired. Qed.
+Print Assumptions C11_edit_keeps_amount_repaired.
+Theorem C11_edit_leaves_supply_covered : forall v s new s', edit v s new = Ok s' ->
+  exists vs, token_values (b_tokens (s_bk s')) = Ok vs /\ s_supply s' <= trunc_int (zsum vs).
+Proof. exact edit_leaves_supply_covered. Qed.
+Print Assumptions C11_edit_leaves_supply_covered.
+(* ... REFUTED for the code as it is (amount taken from the proposal) *)
+Theorem C11_books_edit_refuted : exists s new s', Books s /\ edit current s new = Ok s' /\ s_supply s' <> b_amount (s_bk s').
+Proof. exact books_edit_refuted. Qed.
+Print Assumptions C11_books_edit_refuted.
+(* and REFUTED for the pool-upsert hook, which replaces the record of basket 1 *)
+Theorem C11_books_upsert_hook_refuted : exists s, Books s /\ ~ Books (apply current s (OUpsertHook true)).
+Proof. exact books_upsert_hook_refuted. Qed.
+Print Assumptions C11_books_upsert_hook_refuted.
+
+(* A swap pays out at most the value paid in less fees: for every pair, the amount taken out of
+   the reserves, valued at the out weight, is at most the amount paid in less the swap fee valued
+   at the in weight, up to half of 10^-18 of the out weight (Dec.Quo rounds half to even); it is
+   accepted only for tokens with swaps enabled and at least the minimum value ... *)
+Theorem C11_swap_out_le_in_minus_fees : forall b now a acc din xin dout acc' tin tout,
+  swap_pair b now a acc (din, xin, dout) = Ok acc' -> fee_ok b ->
+  find_token (a_ts acc) din = Some tin -> find_token (a_ts acc) dout = Some tout ->
+  0 < t_weight tin -> 0 < t_weight tout ->
+  exists out, a_outs acc' = coins_add (a_outs acc) dout out /\ 0 < out /\ 0 < xin
+    /\ t_sw tin = true /\ t_sw tout = true /\ b_smin b <= trunc_int (xin * t_weight tin)
+    /\ 2 * out * t_weight tout * PREC <= 2 * xin * (PREC - b_fee b) * t_weight tin + t_weight tout.
+Proof. exact swap_pair_value. Qed.
+Print Assumptions C11_swap_out_le_in_minus_fees.
+(* ... and the slippage fee only lowers what is finally paid, per denomination *)
+Theorem C11_swap_slippage_only_lowers : forall omf outs ff, final_outs omf outs = Ok ff ->
+  forall d, ssum (fst ff) d <= ssum outs d.
+Proof. exact final_outs_le. Qed.
+Print Assumptions C11_swap_slippage_only_lowers.
+
+Theorem C11_swap_disabled_rejected : forall s now a ps s', swap s now a ps = Ok s' -> b_sd (s_bk s) = false.
+Proof. exact swap_respects_switch. Qed.
+Print Assumptions C11_swap_disabled_rejected.
+Theorem C11_burn_disabled_token_pays_nothing : forall ts p outs, withdraw_coins ts p = Ok outs ->
+  forall d, (forall t, In t ts -> t_denom t = d -> t_wd t = false) -> ssum outs d = 0.
+Proof. exact burn_disabled_token_pays_nothing. Qed.
+Print Assumptions C11_burn_disabled_token_pays_nothing.
+
+(* non-vacuity of the invariant: a state with two holders satisfies it *)
+Example C11_books_nonvacuous : Books wit_state.
+Proof. exact wit_books. Qed.
+
 (* non-vacuity: the refutation witness is an accepted burn of a reachable-looking state *)
 Example C11_nonvacuous : exists s', burn current wit_state 0 1 0 1000 = Ok s' /\ s_bal s' 1 1 = 2000 /\ s_bal s' MODULE 1 = 0
                                     /\ s_supply s' = 1000 /\ rsum (b_tokens (s_bk s')) 1 = 0.
